@@ -596,6 +596,8 @@ class SingleAdapter(Adapter, ABC):
         self.read_wildcards: bool = read_wildcards
         self.indels: bool = indels
         self.aligner = self._aligner()
+        # Reads shorter than this are always aligned (no k-mer heuristic)
+        self._kmer_min_read_length: int = 0
         self.kmer_finder = self._kmer_finder()
 
     def _make_aligner(self, sequence: str, flags: int) -> Aligner:
@@ -620,6 +622,12 @@ class SingleAdapter(Adapter, ABC):
         front_adapter: bool,
         internal: bool = True,
     ) -> Union[KmerFinder, MockKmerFinder]:
+        if back_adapter and front_adapter:
+            # Both ends of the adapter may be skipped, so a short read can align
+            # to an inner part of the adapter. The k-mer heuristic does not cover this.
+            self._kmer_min_read_length = len(sequence) + int(
+                len(sequence) * self.max_error_rate
+            )
         positions_and_kmers = create_positions_and_kmers(
             sequence,
             self.min_overlap,
@@ -713,7 +721,10 @@ class FrontAdapter(SingleAdapter):
         return None if no match was found given the matching criteria (minimum
         overlap length, maximum error rate).
         """
-        if not self.kmer_finder.kmers_present(sequence):
+        if (
+            len(sequence) >= self._kmer_min_read_length
+            and not self.kmer_finder.kmers_present(sequence)
+        ):
             return None
         alignment: Optional[Tuple[int, int, int, int, int, int]] = self.aligner.locate(
             sequence
@@ -765,7 +776,10 @@ class RightmostFrontAdapter(FrontAdapter):
         overlap length, maximum error rate).
         """
         reversed_sequence = sequence[::-1]
-        if not self.kmer_finder.kmers_present(reversed_sequence):
+        if (
+            len(sequence) >= self._kmer_min_read_length
+            and not self.kmer_finder.kmers_present(reversed_sequence)
+        ):
             return None
         alignment: Optional[Tuple[int, int, int, int, int, int]] = self.aligner.locate(
             reversed_sequence
@@ -821,7 +835,10 @@ class BackAdapter(SingleAdapter):
         return None if no match was found given the matching criteria (minimum
         overlap length, maximum error rate).
         """
-        if not self.kmer_finder.kmers_present(sequence):
+        if (
+            len(sequence) >= self._kmer_min_read_length
+            and not self.kmer_finder.kmers_present(sequence)
+        ):
             return None
         alignment: Optional[Tuple[int, int, int, int, int, int]] = self.aligner.locate(
             sequence
@@ -866,7 +883,10 @@ class AnywhereAdapter(SingleAdapter):
         return None if no match was found given the matching criteria (minimum
         overlap length, maximum error rate).
         """
-        if not self.kmer_finder.kmers_present(sequence):
+        if (
+            len(sequence) >= self._kmer_min_read_length
+            and not self.kmer_finder.kmers_present(sequence)
+        ):
             return None
         alignment = self.aligner.locate(sequence.upper())
         if self._debug:
